@@ -1152,6 +1152,12 @@ func commitKey(db *leveldb.DB, batch *leveldb.Batch, key []byte, startTS, commit
 }
 
 func commitLock(batch *leveldb.Batch, lock mvccLock, key []byte, startTS, commitTS uint64) error {
+	if lock.op == kvrpcpb.Op_PessimisticLock {
+		// A leftover pessimistic lock carries no write: like TiKV, committing it only removes the lock and changes no
+		// data (it must not be turned into a delete record).
+		batch.Delete(mvccEncode(key, lockVer))
+		return nil
+	}
 	var valueType mvccValueType
 	switch lock.op {
 	case kvrpcpb.Op_Put:
